@@ -522,14 +522,17 @@ func (h *Hashgraph) updateAncestorFirstDescendant(event *Event) error {
 				if err := h.Store.SetEvent(a); err != nil {
 					return err
 				}
-				// Keep walking down the self-parent chain until an ancestor
-				// that already has a first descendant from this creator (all
-				// its self-ancestors have one too). Stopping earlier, e.g. at
-				// the first witness, makes the recorded first descendants, and
-				// with them strongly-see, rounds and fame, depend on which
-				// events happened to be inserted (and processed) before this
-				// one, so that nodes receiving the same events in different
-				// orders disagree.
+				// Stopping condition. We don't want to go all the way down to
+				// the bottom of the hashgraph (which could happen if the event
+				// is from a new participant): the walk would cost one store
+				// write per event ever created, and would run into ancestors
+				// that the store can no longer update (outside the window of
+				// its per-participant index, or left over in the database from
+				// before a fast-forward), failing the insertion half-way. So we
+				// stop at the ancestors that are witnesses.
+				if w, err := h.witness(ah); err == nil && w {
+					break
+				}
 				ah = a.SelfParent()
 			} else {
 				break
